@@ -100,7 +100,8 @@ def run_zone(out, stream, zone, cases):
 
 
 def run(tier, rnd, out):
-    zones = world.ZONES_QUICK if tier == "quick" else world.ZONES_QUICK + world.ZONES_MORE
+    # Casablanca and Mexico City: the offset changes although January and July agree (what C's `daylight` flag looks at)
+    zones = world.ZONES_QUICK + ["Africa/Casablanca", "America/Mexico_City"] if tier == "quick" else world.ZONES_QUICK + world.ZONES_MORE + ["America/Mexico_City"]
     for c in lib.load_corpus("C11"): run_zone(out, "corpus", c["zone"], [c])
     for zone in zones: run_zone(out, "encode-decode", zone, gen(rnd, zone, tier))
 
